@@ -43,8 +43,16 @@ struct XVal {            // a value of the extended reals (or NaN); rational whe
   bool inf() const { return kind == K_PINF || kind == K_MINF; }
   bool nan() const { return kind == K_NAN; }
   int sign() const { return kind == K_PINF ? 1 : kind == K_MINF ? -1 : sgn(q); }
+  // decimal text; very long numerals (long double denormals have ~5000 digits) are abbreviated deterministically so that
+  // a record stays far below the 4096 bytes that several processes can append to the result file atomically
   std::string str() const {
-    switch (kind) { case K_PINF: return "+inf"; case K_MINF: return "-inf"; case K_NAN: return "nan"; default: return q.get_str(); }
+    switch (kind) { case K_PINF: return "+inf"; case K_MINF: return "-inf"; case K_NAN: return "nan"; default: break; }
+    std::string s = q.get_str();
+    if (s.size() <= 160) return s;
+    unsigned long long h = 1469598103934665603ULL;
+    for (size_t i = 0; i < s.size(); ++i) { h ^= (unsigned char)s[i]; h *= 1099511628211ULL; }
+    char b[64]; snprintf(b, sizeof b, "[%zu chars, fnv1a=%016llx]", s.size(), h);
+    return s.substr(0, 60) + "..." + s.substr(s.size() - 20) + b;
   }
 };
 
@@ -72,7 +80,7 @@ struct Exact {           // exact mathematical result: finite rational, sqrt of 
   std::string str() const {
     switch (kind) { case K_PINF: return "+inf"; case K_MINF: return "-inf";
       case K_NAN: { static const char* n[] = {"?", "nan-operand", "inf+(-inf)", "inf-inf", "inf*0", "x/0", "inf/inf", "inf mod", "x mod 0", "sqrt(negative)"}; return std::string("undefined(") + n[why] + ")"; }
-      default: return is_sqrt ? "sqrt(" + q.get_str() + ")" : q.get_str(); }
+      default: return is_sqrt ? "sqrt(" + XVal(q).str() + ")" : XVal(q).str(); }
   }
 };
 
